@@ -537,3 +537,82 @@ pub fn sigma_shift(sigma: &[u8], j: i64) -> Option<Vec<u8>> {
         Some(out.to_vec())
     }
 }
+
+/// Two on-curve points of E(Fp) *outside* the prime-order subgroup G1, built deterministically with
+/// blst: P = first compressed x-candidates (x = 1, 2, …) that lie on the curve and are not in G1,
+/// T = [r]·P with r the order of G1. Multiplying by r removes the G1 component of P, so T has an
+/// order dividing the cofactor: a pairing cannot see it, only an explicit subgroup check can.
+pub fn torsion_points() -> Vec<blst::blst_p1> {
+    use blst::*;
+    // r, little endian
+    let mut r_le = hex::decode("73eda753299d7d483339d80809a1d80553bda402fffe5bfeffffffff00000001").expect("r");
+    r_le.reverse();
+    let mut out = vec![];
+    let mut x = 1u16;
+    while out.len() < 2 {
+        let mut bytes = [0u8; 48];
+        bytes[0] = 0x80;
+        bytes[46..48].copy_from_slice(&x.to_be_bytes());
+        x += 1;
+        unsafe {
+            let mut aff = blst_p1_affine::default();
+            if blst_p1_uncompress(&mut aff, bytes.as_ptr()) != BLST_ERROR::BLST_SUCCESS || blst_p1_affine_in_g1(&aff) {
+                continue;
+            }
+            let mut p = blst_p1::default();
+            blst_p1_from_affine(&mut p, &aff);
+            let mut t = blst_p1::default();
+            blst_p1_mult(&mut t, &p, r_le.as_ptr(), 255);
+            if blst_p1_is_inf(&t) || blst_p1_in_g1(&t) || !blst_p1_on_curve(&t) {
+                continue;
+            }
+            // 2T must not vanish either (j = 2 is used)
+            let mut t2 = blst_p1::default();
+            blst_p1_add_or_double(&mut t2, &t, &t);
+            if blst_p1_is_inf(&t2) {
+                continue;
+            }
+            out.push(t);
+        }
+    }
+    out
+}
+
+/// sigma + j·T (j ≥ 1), compressed; the result is on the curve but outside G1
+pub fn sigma_plus_torsion(sigma: &[u8], t: &blst::blst_p1, j: u32) -> Option<Vec<u8>> {
+    use blst::*;
+    if sigma.len() != 48 {
+        return None;
+    }
+    unsafe {
+        let mut aff = blst_p1_affine::default();
+        if blst_p1_uncompress(&mut aff, sigma.as_ptr()) != BLST_ERROR::BLST_SUCCESS {
+            return None;
+        }
+        let mut r = blst_p1::default();
+        blst_p1_from_affine(&mut r, &aff);
+        for _ in 0..j {
+            let mut s = blst_p1::default();
+            blst_p1_add_or_double(&mut s, &r, t);
+            r = s;
+        }
+        if blst_p1_is_inf(&r) || blst_p1_in_g1(&r) {
+            return None;
+        }
+        let mut out = [0u8; 48];
+        blst_p1_compress(out.as_mut_ptr(), &r);
+        Some(out.to_vec())
+    }
+}
+
+/// true when the bytes are a compressed point on the curve that is not in G1
+pub fn sigma_outside_g1(sigma: &[u8]) -> bool {
+    use blst::*;
+    if sigma.len() != 48 {
+        return false;
+    }
+    unsafe {
+        let mut aff = blst_p1_affine::default();
+        blst_p1_uncompress(&mut aff, sigma.as_ptr()) == BLST_ERROR::BLST_SUCCESS && !blst_p1_affine_is_inf(&aff) && !blst_p1_affine_in_g1(&aff)
+    }
+}
